@@ -66,10 +66,16 @@ class Subroutine(Scope):
         return tmp_list
 
     def resolve_arg_link(self, obj_tree):
-        if (self.args == "") or (len(self.in_children) > 0):
+        if len(self.in_children) > 0:
             return
-        arg_list = self.args.replace(" ", "").split(",")
-        arg_list_lower = self.args.lower().replace(" ", "").split(",")
+        # Without dummy arguments there is nothing to link, but variables that
+        # carry INTENT still have to be reported
+        if self.args.strip() == "":
+            arg_list = []
+            arg_list_lower = []
+        else:
+            arg_list = self.args.replace(" ", "").split(",")
+            arg_list_lower = self.args.lower().replace(" ", "").split(",")
         self.arg_objs = [None] * len(arg_list)
         # check_objs = copy.copy(self.children)
         # for child in self.children:
